@@ -167,6 +167,8 @@ def jacobian_sequence(kind, method, with_linear=False):
     cfg = {"variables": {"initial_values": [0.0, 1.0, 0.0]}, "optimizer": {"method": "rvscipy/" + method},
            "gradient": {"number_of_perturbations": 6, "perturbation_magnitudes": 0.001},
            "nonlinear_constraints": {"lower_bounds": [KB[kind][0]], "upper_bounds": [KB[kind][1]]}}
+    if not with_linear:    # a (very loose) convergence tolerance for the algorithm: no business of the plug-in's point cache
+        cfg["optimizer"]["tolerance"] = 5.0
     if with_linear:        # a linear row next to the quadratic constraint (its Jacobian is constant, the quadratic one's is not)
         cfg["linear_constraints"] = {"coefficients": [[1.0, 0.0, 1.0]], "lower_bounds": [-INF], "upper_bounds": [2.0]}
 
